@@ -105,3 +105,108 @@ pub fn gen(rng: &mut Rng, max_dim: usize, force_dark_topleft: bool) -> (Vec<bool
     }
     (b, w, h, tag)
 }
+
+/// large shapes whose outline is ONE very long closed walk (serpentine band, spiral), with a few
+/// one-module bumps and diagonally touching modules sprinkled along it (branch points of the walk)
+pub fn long_contour(rng: &mut Rng, w: usize, h: usize) -> (Vec<bool>, &'static str) {
+    let mut b = vec![false; w * h];
+    let tag;
+    if rng.chance(1, 3) {
+        // comb: full top row, one-module wide teeth in every other column reaching down to row h-2, and modules
+        // that touch the tooth ends only diagonally (degree-4 nodes of the outline graph) - many of them late in
+        // the walk, i.e. at the teeth on the far side
+        let mut b = vec![false; w * h];
+        for x in 0..w {
+            b[x] = true;
+        }
+        for x in (0..w).step_by(2) {
+            for y in 0..h - 1 {
+                b[y * w + x] = true;
+            }
+        }
+        let nd = rng.range(1, 10);
+        for k in 0..nd {
+            let x = if k % 2 == 0 { w - 2 - 2 * rng.below((w / 8).max(1)).min((w - 2) / 2) } else { 2 * rng.below(w / 2) };
+            let x = (x / 2 * 2 + 1).min(w - 1);
+            b[(h - 1) * w + x] = true;
+        }
+        b[0] = true;
+        return (b, "big_comb_with_diagonal_contacts");
+    }
+    if rng.chance(1, 2) {
+        // serpentine: full rows 0, 4, 6, 8, ... (or 0, 4, 8, ...) joined alternately at the right and the left end:
+        // one closed outline walk of about w*h (w*h/2) unit edges
+        tag = "serpentine";
+        let step = if rng.chance(2, 3) { 2 } else { 4 };
+        let mut rows: Vec<usize> = vec![0];
+        let mut y = 4;
+        while y < h {
+            rows.push(y);
+            y += step;
+        }
+        for r in &rows {
+            for x in 0..w {
+                b[r * w + x] = true;
+            }
+        }
+        let mut right = true;
+        for pair in rows.windows(2) {
+            let x = if right { w - 1 } else { 0 };
+            for yy in pair[0]..pair[1] {
+                b[yy * w + x] = true;
+            }
+            right = !right;
+        }
+        // motif hanging under a band row: two one-module bumps and a module touching both only diagonally; under
+        // row 0 it is reached at the very end of the outer walk, under later rows somewhere in the middle
+        for k in 0..rng.range(1, 6) {
+            let y0 = if k == 0 || rng.chance(1, 2) || step == 2 { 0 } else { 4 * rng.below((h / 4).max(1)) };
+            if y0 + 3 < h && w > 8 {
+                let x = rng.range(2, w - 5);
+                b[(y0 + 1) * w + x] = true;
+                b[(y0 + 1) * w + x + 2] = true;
+                b[(y0 + 2) * w + x + 1] = true;
+            }
+        }
+    } else {
+        // rectangular spiral with arm width 1 and gap 2
+        tag = "spiral";
+        let (mut x0, mut y0, mut x1, mut y1) = (0i64, 0i64, w as i64 - 1, h as i64 - 1);
+        let mut first = true;
+        while x0 <= x1 && y0 <= y1 {
+            for x in x0..=x1 {
+                b[(y0 as usize) * w + x as usize] = true;
+            }
+            for y in y0..=y1 {
+                b[(y as usize) * w + x1 as usize] = true;
+            }
+            if y1 - y0 >= 3 {
+                for x in (x0 + if first { 0 } else { 0 })..=x1 {
+                    b[(y1 as usize) * w + x as usize] = true;
+                }
+                for y in (y0 + 3)..=y1 {
+                    b[(y as usize) * w + x0 as usize] = true;
+                }
+                // connect into the next ring
+                if x1 - x0 >= 3 {
+                    for x in x0..=(x0 + 3).min(x1) {
+                        b[((y0 + 3) as usize) * w + x as usize] = true;
+                    }
+                }
+            }
+            first = false;
+            x0 += 3;
+            y0 += 3;
+            x1 -= 3;
+            y1 -= 3;
+        }
+    }
+    // bumps and diagonal contacts, preferably far along the walk (towards the end of the bitmap)
+    for _ in 0..rng.range(2, 12) {
+        let y = if rng.chance(2, 3) { rng.range(h / 2, h - 1) } else { rng.below(h) };
+        let x = rng.below(w);
+        b[y * w + x] = !b[y * w + x];
+    }
+    b[0] = true;
+    (b, tag)
+}
